@@ -418,6 +418,21 @@ Section Mux.
       match process_proposal (restart n cfg apps) b with None => None | Some n2 => finalize n2 b end
     end.
 
+  (* Consensus rounds that did not lead to a commit leave a cache behind: a proposal this
+     node prepared (round failed), or somebody's proposal it processed (round failed). *)
+  Inductive stale :=
+  | StalePrepared (key : bytes) (hd : header) (cands : list bytes) (cm : list vote) (ms : list misb)
+  | StaleProcessed (b' : block).
+  Definition apply_stale (n : node) (st : stale) : node :=
+    match st with
+    | StalePrepared key hd cands cm ms => fst (prepare n key hd cands cm ms)
+    | StaleProcessed b' =>
+      match process_proposal n b' with
+      | Some n' => n'
+      | None => mkNode (n_committed n) None (n_cfg n) (n_apps n)   (* REJECT: resetProposal *)
+      end
+    end.
+
   (* CheckTx and simulation: state.go:197-206.  They run on a copy ([checkState] /
      a fresh tree at the committed root) and return only a result; the type says
      that no node state comes back. *)
